@@ -316,12 +316,19 @@ func delegateTarget(fn *ssa.Function) *ssa.Function {
 		if g == nil || g.Blocks == nil || g.Pkg != fn.Pkg || len(call.Call.Args) < len(fn.Params) {
 			return fn
 		}
-		// every parameter is handed on (extra arguments — an options value, a nil hook — may come before or after)
+		// every parameter is handed on (extra arguments — an options value, a nil hook — may come before or after), and
+		// those handed on directly keep their relative order: two parameters of one type swapped on the way are not a
+		// delegation but a change
+		last := -1
 		for _, p := range fn.Params {
 			passed := false
-			for _, a := range call.Call.Args {
+			for ai, a := range call.Call.Args {
 				if a == ssa.Value(p) {
 					passed = true
+					if ai <= last {
+						return fn
+					}
+					last = ai
 				}
 			}
 			// … or put into the options value that is handed on (`Options{RandomFn: randomFnArg}`)
